@@ -137,6 +137,13 @@ def writeFromFd (f0 : Fifo) (len : Int) (avail : List UInt8) (eof : Bool) (taken
       else if !lossOk f0 sz (decide (n > nfree)) then none
       else some (taken, n - nfree, { f with q := lastN sz (f.q ++ avail.take n) })
 
+/-- a whole line is refused when it cannot be stored without loss (no-drop) or at all (wrap-once) -/
+def lineRefused (mode : Mode) (len nfree sz : Nat) : Bool :=
+  match mode with
+  | .noDrop => decide (len > nfree)
+  | .wrapOnce => decide (len > sz)
+  | .wrapMany => false
+
 /-- `cbuf_write_line`: the string plus a newline if it lacks one, all or nothing in the
     refusing modes, newest `size` bytes kept otherwise. -/
 def writeLine (f0 : Fifo) (s : List UInt8) (sz : Nat) : Option (Int × Nat × Fifo) :=
@@ -145,10 +152,7 @@ def writeLine (f0 : Fifo) (s : List UInt8) (sz : Nat) : Option (Int × Nat × Fi
   else
     let f := { f0 with size := sz }
     let nfree := sz - f.q.length
-    let refused : Bool := match f.mode with
-      | .noDrop => decide (line.length > nfree)
-      | .wrapOnce => decide (line.length > sz)
-      | .wrapMany => false
+    let refused : Bool := lineRefused f.mode line.length nfree sz
     if !lossOk f0 sz (refused || decide (line.length > nfree)) then none
     else if refused then some (-1, 0, f)
     else some (line.length, line.length - nfree, { f with q := lastN sz (f.q ++ line) })
